@@ -9,6 +9,7 @@ import (
 	"os"
 	"os/exec"
 	"runtime"
+	"runtime/debug"
 	"strings"
 	"syscall"
 	"time"
@@ -39,6 +40,19 @@ type c07job struct {
 	input     []byte
 	desc      string // how the input was derived
 	hostCount uint32 // the hostile count that was planted (0 = none)
+	// deep inputs: the input is `input` repeated `repeat` times followed by `tail` (built in the child)
+	repeat   int
+	tail     []byte
+	stackMiB int    // run under debug.SetMaxStack(stackMiB MiB) (0 = the runtime's 1 GB)
+	deadline int    // watchdog deadline in ms (0 = 2500)
+	known    string // the finding this directed input is the witness of
+}
+
+func (j c07job) size() int {
+	if j.repeat > 0 {
+		return len(j.input)*j.repeat + len(j.tail)
+	}
+	return len(j.input)
 }
 
 type c07out struct {
@@ -81,13 +95,14 @@ func c07Child(args []string) {
 	out := bufio.NewWriter(os.Stdout)
 	cur := make(chan int, 1)
 	started := make(chan struct{}, 1)
+	deadline := 2500
 	go func() { // watchdog: a job that takes longer than the deadline is a hang
 		for {
 			<-started
 			idx := <-cur
 			select {
 			case <-cur: // finished
-			case <-time.After(2500 * time.Millisecond):
+			case <-time.After(time.Duration(deadline) * time.Millisecond):
 				fmt.Fprintf(out, "HANG %d\n", idx)
 				out.Flush()
 				os.Exit(3)
@@ -109,6 +124,25 @@ func c07Child(args []string) {
 		fmt.Sscan(f[1], &entry)
 		sig, _ := hex.DecodeString(f[2][1:])
 		input, _ := hex.DecodeString(f[3][1:])
+		deadline = 2500
+		if len(f) >= 8 {
+			var rep, stack, dl int
+			fmt.Sscan(f[4][1:], &rep)
+			tail, _ := hex.DecodeString(f[5][1:])
+			fmt.Sscan(f[6][1:], &stack)
+			fmt.Sscan(f[7][1:], &dl)
+			if rep > 0 {
+				input = append(bytes.Repeat(input, rep), tail...)
+			}
+			if stack > 0 {
+				debug.SetMaxStack(stack << 20)
+			} else {
+				debug.SetMaxStack(1000000000)
+			}
+			if dl > 0 {
+				deadline = dl
+			}
+		}
 		fmt.Fprintf(out, "START %d\n", idx)
 		out.Flush()
 		runtime.ReadMemStats(&ms)
@@ -142,7 +176,8 @@ func c07execute(jobs []c07job) []c07out {
 		go func(from int) {
 			w := bufio.NewWriter(stdin)
 			for i := from; i < len(jobs); i++ {
-				fmt.Fprintf(w, "%d %d s%s i%s\n", i, jobs[i].entry, hex.EncodeToString([]byte(jobs[i].sig)), hex.EncodeToString(jobs[i].input))
+				fmt.Fprintf(w, "%d %d s%s i%s x%d t%s k%d d%d\n", i, jobs[i].entry, hex.EncodeToString([]byte(jobs[i].sig)), hex.EncodeToString(jobs[i].input),
+					jobs[i].repeat, hex.EncodeToString(jobs[i].tail), jobs[i].stackMiB, jobs[i].deadline)
 			}
 			w.Flush()
 			stdin.Close()
@@ -324,6 +359,35 @@ func runC07(res *hx.Result, rng *hx.Rng, tier string, outdir string) {
 			add(c07job{entry: k7ParseIDL, sig: "v", t: wg.Scalar("v"), input: []byte(text), desc: "directed: recursive structure through " + member})
 		}
 	}
+	// resources that grow with the NESTING DEPTH of the input (found in review round 4):
+	// (a) signature.Parse recurses once per nesting level with no bound: the goroutine stack grows by more
+	//     than 500 bytes per level, the runtime's 1 GB limit is reached near 2,000,000 levels (a 2 MB
+	//     signature, e.g. inside a dynamic value) and the process dies with "fatal error: stack overflow".
+	//     Quick tier: 100,000 levels under a 32 MiB stack limit; thorough tier: the real thing.
+	add(c07job{entry: k7Parse, sig: "v", t: wg.Scalar("v"), input: []byte("["), repeat: 100000, stackMiB: 32, deadline: 30000, known: "sig_parse_stack_unbounded",
+		desc: "directed: 100000 nested '[' under debug.SetMaxStack(32 MiB)"})
+	if tier == "thorough" {
+		add(c07job{entry: k7Parse, sig: "v", t: wg.Scalar("v"), input: []byte("["), repeat: 2000000, deadline: 240000, known: "sig_parse_stack_unbounded",
+			desc: "directed: 2000000 nested '[' under the default stack limit"})
+	}
+	// (b) the signature-driven reader copies the data it read once per level of nesting
+	//     (valueReader: append(signature, data...); tuple/list readers alike): 8000 nested dynamic values,
+	//     40 KB on the wire, make it allocate about 160 MB
+	add(c07job{entry: k8SigRead, sig: "m", t: wg.Scalar("m"), input: []byte{1, 0, 0, 0, 'm'}, repeat: 8000, tail: []byte{1, 0, 0, 0, 'v'}, deadline: 30000, known: "sig_reader_depth_quadratic",
+		desc: "directed: 8000 nested dynamic values"})
+	// (c) the IDL parser builds the signature of a structure by pasting the signatures of its members: a chain
+	//     of n structures with two members of the next structure each costs 2^n
+	{
+		var b strings.Builder
+		b.WriteString("package p\n")
+		const n = 18
+		for i := 0; i < n; i++ {
+			fmt.Fprintf(&b, "struct S%d\n\ta: S%d\n\tb: S%d\nend\n", i, i+1, i+1)
+		}
+		fmt.Fprintf(&b, "struct S%d\n\ta: int32\nend\ninterface I\n\tfn f(a: S0)\nend\n", n)
+		add(c07job{entry: k7ParseIDL, sig: "v", t: wg.Scalar("v"), input: []byte(b.String()), deadline: 30000, known: "idl_struct_chain_exponential",
+			desc: "directed: chain of 18 structures with two members of the next one each"})
+	}
 	// the witnesses of the refutation theorems, always
 	add(c07job{entry: k8SigRead, sig: "[v]", t: wg.List(wg.Scalar("v")), input: []byte{0xff, 0xff, 0xff, 0xff}, desc: "witness sig_spin_zero_width", hostCount: 0xffffffff})
 	add(c07job{entry: k8MetaObject, sig: wg.MetaObjectTy().Sig(), t: wg.MetaObjectTy(), input: []byte{0xff, 0xff, 0xff, 0xff}, desc: "witness gen_alloc_from_wire_count", hostCount: 0xffffffff})
@@ -352,15 +416,19 @@ func runC07(res *hx.Result, rng *hx.Rng, tier string, outdir string) {
 	swDetail := map[string]string{}
 	for i, j := range jobs {
 		o := outs[i]
-		inLen := uint64(len(j.input))
+		inLen := uint64(j.size())
 		bound := 64*inLen + 48<<20 // a modest multiple of the input + the documented limits (10 MiB strings/payload, 4096-element containers)
 		zeroWidthType := j.entry == k8SigRead && j.t != nil && j.t.Has(func(x *wg.Ty) bool { return x.K == wg.KList && x.Elem.MinWidth() == 0 })
 		zeroWidthSpin := zeroWidthType && j.hostCount >= 1<<20
 		genEntry := j.entry == k8MetaObject || j.entry == k8ObjectRef || j.entry == k8ServiceInfo
 		deepText := (j.entry == k7Parse || j.entry == k8Value || j.entry == k8CapMap || j.entry == k8SigRead) && maxNest(j.input) >= 14
 		fail := func(kind, what string) {
-			detail := fmt.Sprintf("%s on %d bytes %x (%s; signature %s): %s", k7Names[j.entry], len(j.input), trunc(j.input, 80), j.desc, j.sig, what)
+			detail := fmt.Sprintf("%s on %d bytes %x (%s; signature %s): %s", k7Names[j.entry], j.size(), trunc(j.input, 80), j.desc, j.sig, what)
 			switch {
+			case j.known != "":
+				// the directed witness of a recorded finding
+				sw[j.known], swDetail[j.known] = true, detail
+				res.FailKnown(kind, detail, j.known)
 			case zeroWidthType && (kind == "hang" || kind == "slow" || kind == "alloc"):
 				// whatever number the bytes hold where the list's count is read
 				sw["sig_spin_zero_width"], swDetail["sig_spin_zero_width"] = true, detail
@@ -380,14 +448,14 @@ func runC07(res *hx.Result, rng *hx.Rng, tier string, outdir string) {
 		case o.class == ocPanic:
 			fail("panic", "the decoder panicked")
 		case o.class == 5:
-			fail("hang", "no answer within 2.5 s")
+			fail("hang", fmt.Sprintf("no answer within %d ms", map[bool]int{true: j.deadline, false: 2500}[j.deadline > 0]))
 		case o.class == 6:
 			fail("crash", "the process died (fatal error / out of memory under a 6 GiB address-space limit)")
 		default:
 			if o.alloc > bound {
 				fail("alloc", fmt.Sprintf("%d bytes allocated for %d bytes of input", o.alloc, inLen))
 			}
-			if o.nanos > int64(400*time.Millisecond) {
+			if o.nanos > int64(400*time.Millisecond)+20000*int64(inLen) { // 400 ms + 20 us per byte
 				fail("slow", fmt.Sprintf("%d ms for %d bytes of input", o.nanos/1e6, inLen))
 			}
 		}
@@ -405,7 +473,7 @@ func runC07(res *hx.Result, rng *hx.Rng, tier string, outdir string) {
 		// correspondence: outcome class / bytes left against the models (inputs the model can evaluate quickly)
 		// lists of zero-width elements with a count that is not the honest one are kept out of the
 		// in-Coq evaluation (the model would materialise `count` empty elements)
-		if o.class <= ocErr && len(j.input) <= 600 && !zeroWidthSpin && !(zeroWidthType && j.desc != "valid") && !deepText && j.entry != k7ParseIDL {
+		if o.class <= ocErr && len(j.input) <= 600 && j.repeat == 0 && j.known == "" && !zeroWidthSpin && !(zeroWidthType && j.desc != "valid") && !deepText && j.entry != k7ParseIDL {
 			big := 0
 			if o.alloc > 64<<20 {
 				big = 1
@@ -422,7 +490,7 @@ func runC07(res *hx.Result, rng *hx.Rng, tier string, outdir string) {
 	for k, on := range sw {
 		res.Switch(k, on, swDetail[k])
 	}
-	for _, k := range []string{"sig_spin_zero_width", "gen_alloc_from_wire_count", "parse_exponential"} {
+	for _, k := range []string{"sig_spin_zero_width", "gen_alloc_from_wire_count", "parse_exponential", "sig_parse_stack_unbounded", "sig_reader_depth_quadratic", "idl_struct_chain_exponential"} {
 		if !sw[k] {
 			res.Switch(k, false, "witness input handled within the bounds")
 		}
